@@ -212,7 +212,8 @@ class Bisync:
     def copy_sites(self):
         """[(bb, term, src_class, dst_class)] of copy_atomic calls in apply."""
         out = []
-        for cb, ct in self.afl.calls_to(COPY):
+        import semantic_anchors
+        for cb, ct in self.afl.calls_to(*sorted({COPY} | semantic_anchors.atomic_publishers(self.F))):
             out.append((cb, ct, self.classify_path(ct['args'][0]), self.classify_path(ct['args'][1])))
         return out
 
